@@ -3,10 +3,11 @@
 
     deadline <stacking> <limits> <t> <events>     → closed <t> <phase> <anchor> | open <phase>
         stacking = three flags  proxy tls mitm, e.g. `101`
-        limits   = idle,readHeader,read,tls,proxyHdr
+        limits   = idle,readHeader,read,tls,proxyHdr[,write]      (five numbers: write = 0)
         t        = instant the connection's goroutine starts (its first use of the connection)
         events   = list of  <t>:<kind>   kind ∈ d (data) | c (complete) | hn | hb | hm (head: no body /
-                   with body / intercepted CONNECT);  `~` = no event
+                   with body / intercepted CONNECT) | rs (the proxy starts writing the response) |
+                   tu (the tunnel is up: 2xx to CONNECT / 101 written);  `~` = no event
     accept <stacking> <limits> <free> <peers>     → list of <accept>:<start>
         peers    = list of  <arrive>:<hdr>   hdr = instant the PROXY header is complete, `x` = never
                    (what a peer sends does not enter the accept loop; it is part of the request all the same)
@@ -24,11 +25,13 @@ def phaseName : Phase → String
   | .proxyHeader => "proxyHeader" | .tlsHandshake => "tlsHandshake" | .idle => "idle"
   | .header => "header" | .body => "body" | .mitmPeek => "mitmPeek"
   | .mitmHandshake => "mitmHandshake" | .waitingForOrigin => "waitingForOrigin"
+  | .writing => "writing" | .tunnel => "tunnel"
 
 def phaseOf : String → Option Phase
   | "proxyHeader" => some .proxyHeader | "tlsHandshake" => some .tlsHandshake | "idle" => some .idle
   | "header" => some .header | "body" => some .body | "mitmPeek" => some .mitmPeek
   | "mitmHandshake" => some .mitmHandshake | "waitingForOrigin" => some .waitingForOrigin
+  | "writing" => some .writing | "tunnel" => some .tunnel
   | _ => none
 
 def stackingOf (s : String) : Option Stacking :=
@@ -40,12 +43,14 @@ def stackingOf (s : String) : Option Stacking :=
 
 def limitsOf (s : String) : Option Limits :=
   match natList s with
-  | some [a, b, c, d, e] => some ⟨a, b, c, d, e⟩
+  | some [a, b, c, d, e] => some ⟨a, b, c, d, e, 0⟩
+  | some [a, b, c, d, e, w] => some ⟨a, b, c, d, e, w⟩
   | _ => none
 
 def evOf : String → Option Ev
   | "d" => some .data | "c" => some .complete
   | "hn" => some (.head .noBody) | "hb" => some (.head .withBody) | "hm" => some (.head .connectMitm)
+  | "rs" => some .respStart | "tu" => some .tunnelUp
   | _ => none
 
 def timedEvOf (s : String) : Option (Nat × Ev) :=
